@@ -1,6 +1,7 @@
 (* C14 — CAN messages that do not fit a frame are rejected, never truncated.  Statements only. *)
 From Coq Require Import String ZArith List Bool.
 From FcpV Require Import Schema.Types Layout.Packed Layout.PackedProofs Verifier.Checks Verifier.VerifierProofs.
+From FcpV Require Dbc.DbcLib Dbc.DbcSrcProofs gen.PyDbc.
 From FcpV Require Import Dbc.DbcModel Dbc.DbcProofs Codegen.Pipeline Codegen.PipelineProofs.
 From FcpV Require Import Py.BufferLib Verifier.ChecksLib Verifier.ChecksProofs.
 From FcpV Require Import Layout.EncoderLib Layout.EncoderProofs Layout.EncoderFailProofs.
@@ -116,3 +117,18 @@ Proof.
   - now apply get_type_is_library. - apply get_signal_is_library. - now apply get_packed_size_is_model.
 Qed.
 Print Assumptions source_encoder_lookups_are_the_library.
+
+(* ---- _make_signals of plugins/fcp_dbc/fcp_dbc/dbc_writer.py is translated from the source on every run (gen/PyDbc.v): the signals
+   and the message length it computes from a layout are the model's, and it raises exactly when the model has no result (an empty
+   layout; more than 64 bits) ---- *)
+Theorem source_size_guard_is_the_model :
+  forall ps, DbcSrcProofs.res_of (PyDbc.py_make_signals ps) = make_signals ps.
+Proof. exact DbcSrcProofs.make_signals_is_model. Qed.
+Print Assumptions source_size_guard_is_the_model.
+
+(* write_dbc of the same file, translated as well: per bus, the messages handed to cantools (id, name, length, signals), in the model's
+   order; it raises / returns Err exactly when the model has no result *)
+Theorem source_write_dbc_is_the_model :
+  forall sc ims, option_map DbcSrcProofs.drop_nodes (DbcSrcProofs.dres_of (PyDbc.py_write_dbc sc ims)) = write_dbc sc ims.
+Proof. exact DbcSrcProofs.write_dbc_is_model. Qed.
+Print Assumptions source_write_dbc_is_the_model.
